@@ -175,7 +175,7 @@ func effRun(out *Out, monad string, p *EProg) {
 	out.Ev("Init", "monad", monad, "prog", p.tla(), "case", string(cj))
 	out.w.Flush() // a fatal stack overflow cannot be recovered: the case that was running must be on disk
 	rec := &effRec{lg: []int{}}
-	func() {
+	deadline(out, caseDeadline, func() {
 		defer func() {
 			if r := recover(); r != nil {
 				out.Ev("Panic", "v", fmt.Sprint(r))
@@ -195,7 +195,7 @@ func effRun(out *Out, monad string, p *EProg) {
 			fatal("effect: unknown monad", monad)
 		}
 		out.Ev("Run", "ok", ok, "v", tv(v), "err", e, "log", rec.lg)
-	}()
+	})
 	out.Ev("End")
 }
 
